@@ -34,9 +34,11 @@ fn gen_strings(rng: &mut Rng, n: usize, alpha: &[char]) -> Vec<String> {
     // a fixed corpus first: witnesses of past findings and grammar corner cases
     for s in ["", "C", "CC", "C(C)C", "C.C", "C1CC1", "C%12CC%12", "[13CH4]", "[C@@H](F)(Cl)Br", "[*@TB0]", "[*@TBx", "[G]", "[C+10]", "[C-10]", "[Cs]", "[C+5]", "[*@TB20]", "[*@OH3]", "[*@OH14]",
               "C11", "C1C1", "C12CC12", "C[Pt@SP1H](C)(C)C", "C1C[C@@]1(F)Cl", "C(", "C(C", "C()", "(C)", "C=", "C=1", "C.", "C..C", "C(.C)C", "C(=C)(#N)C", "C%1", "C%", "[", "[C", "[C:", "[C:x]", "[1000U]", "[*:1000]",
-              "C/C=C\\C", "F/C=C/F", "C1=CC=CC=C1", "c1ccccc1", "[nH]1cccc1", "C\u{e9}C", "\u{e9}", "[\u{e9}]", "[\u{b2}H]", "[C:\u{663}]", "[\u{ff11}\u{ff13}C]", "C[N:\u{bd}]", "[C:1\u{ff12}]", "C%\u{663}1", "C\u{b2}", "[C@TB\u{b2}]", "[C+\u{663}]", "[CH\u{b2}]", "C(.O)N", "C(.O)1CC1", "CC(C(.[Na+])O)=O", "C(C(C(C)))C", "C1.C1", "C1(C)", "*", "[*]", "[*H]", "[HH1]", "Cl", "Br", "B", "Bx", "At", "Ts", "Tx", "A"] { v.push(s.to_string()) }
+              "C/C=C\\C", "F/C=C/F", "C1=CC=CC=C1", "c1ccccc1", "[nH]1cccc1", "C\u{e9}C", "\u{e9}", "[\u{e9}]", "\u{feff}CC", "\u{feff}C(", "\u{feff}", "C\u{feff}", " CC", "CC ", "\u{a0}C", "\u{200b}C", "\tC", "C\n", "[\u{b2}H]", "[C:\u{663}]", "[\u{ff11}\u{ff13}C]", "C[N:\u{bd}]", "[C:1\u{ff12}]", "C%\u{663}1", "C\u{b2}", "[C@TB\u{b2}]", "[C+\u{663}]", "[CH\u{b2}]", "C(.O)N", "C(.O)1CC1", "CC(C(.[Na+])O)=O", "[999U@TB20H9-15:999]", "[0C@OH30H0+15:0]", "[001C]", "C%99CC%99", "C%10CC%101", "C%011CC%01", "C%01CC1", "C9CC9", "C0CC0",
+              "C(C(C(C(C(C(C(C(C(C(C(C))))))))))))", "C((C))", "C(C)(C)(C)(C)(C)(C)", "[C@TB1](F)(Cl)(Br)(I)C", "[C@@OH30](F)(Cl)(Br)(I)(C)N", "C1CC2CC3CC4CC5CC6CC7CC8CC9CC%10CC%11CC1C2C3C4C5C6C7C8C9C%10C%11",
+              "F/C=C/C=C\\C", "C/1=C/CCCC1", "[nH]1cccc1", "c1ccccc1-c2ccccc2", "C=1CCCCC=1", "C=1CCCCC1", "C1CCCCC=1", "C-1CCCCC=1", "C/1CCCCC\\1", "C/1CCCCC/1", "C(C(C(C)))C", "C1.C1", "C1(C)", "*", "[*]", "[*H]", "[HH1]", "Cl", "Br", "B", "Bx", "At", "Ts", "Tx", "A"] { v.push(s.to_string()) }
     while v.len() < n {
-        let n = rng.below(14); let h = if rng.chance(1, 2) { gen_history(rng, n) } else { gen_history_rings(rng, n) };
+        let n = if rng.chance(1, 12) { 40 + rng.below(60) } else { rng.below(14) }; let h = if rng.chance(1, 2) { gen_history(rng, n) } else { gen_history_rings(rng, n) };
         let mut w = Writer::new(); replay(&h, &mut w); let text = w.write();
         match rng.below(10) {
             0..=4 => v.push(text),
@@ -47,7 +49,7 @@ fn gen_strings(rng: &mut Rng, n: usize, alpha: &[char]) -> Vec<String> {
                 match rng.below(3) { 0 => { cs.remove(i); } 1 => cs.insert(i, *rng.pick(alpha)), _ => cs[i] = *rng.pick(alpha) }
                 v.push(cs.into_iter().collect())
             }
-            8 => { let cut = rng.below(text.chars().count() + 1); v.push(text.chars().take(cut).collect()) }
+            8 => { if rng.chance(1, 3) { let c = *rng.pick(alpha); v.push(format!("{}{}", c, text)) } else { let cut = rng.below(text.chars().count() + 1); v.push(text.chars().take(cut).collect()) } }
             _ => { let len = rng.below(8); v.push((0..len).map(|_| *rng.pick(alpha)).collect()) }
         }
     }
@@ -151,7 +153,7 @@ fn main() {
     std::panic::set_hook(Box::new(|_| {}));
     let args: Vec<String> = std::env::args().collect();
     let (suite, count, outdir, shards) = (args[1].as_str(), args[2].parse::<usize>().unwrap(), args[3].clone(), args[4].parse::<usize>().unwrap());
-    let alpha: Vec<char> = std::env::var("VERIF_ALPHABET").unwrap_or("()*+-.0123456789:=@BCFHNOPS[]%clnos#/\\$".into()).chars().chain("\u{e9}~ \u{b2}\u{663}\u{ff12}".chars()).collect();
+    let alpha: Vec<char> = std::env::var("VERIF_ALPHABET").unwrap_or("()*+-.0123456789:=@BCFHNOPS[]%clnos#/\\$".into()).chars().chain("\u{e9}~ \u{b2}\u{663}\u{ff12}\u{feff}\u{200b}\u{a0}".chars()).collect();
     let mut rng = Rng::from_env(suite.bytes().fold(7u64, |a, b| a.wrapping_mul(131).wrapping_add(b as u64)));
     let mut cases: Vec<String> = vec![];
     let mut dist = std::collections::BTreeMap::<String, usize>::new();
@@ -177,13 +179,18 @@ fn main() {
                 vec![star(vec![(e(), 0)])], vec![star(vec![(e(), 1), (e(), 1)]), star(vec![(e(), 0), (e(), 0)])], vec![star(vec![(BondKind::Up, 1)]), star(vec![(BondKind::Up, 0)])]];
             for g in corpus { cases.push(walk_case(&g)); bump("corpus") }
             while cases.len() < count {
-                let g = match rng.below(10) { 0..=4 => { bump("wf"); gen_wf_graph(&mut rng, 9) } 5 => { bump("wf-large"); gen_wf_graph(&mut rng, 16) }
+                let big = count > 5000;
+                let g = match rng.below(14) { 0..=4 => { bump("wf"); gen_wf_graph(&mut rng, 9) } 5 => { bump("wf-large"); gen_wf_graph(&mut rng, if big { 48 } else { 20 }) }
+                    10 => { bump("ladder"); let k = if big && rng.chance(1, 8) { 20 + rng.below(85) } else { 2 + rng.below(14) }; gen_ladder(&mut rng, k) }
+                    11 => { bump("hub"); let d = 3 + rng.below(6); gen_hub(&mut rng, d) }
+                    12 => { let k = 2 + rng.below(6); let mut g = gen_ladder(&mut rng, k); let m = mutate_graph(&mut rng, &mut g); bump(&format!("ladder-mutant-{}", m)); g }
+                    13 => { let d = 3 + rng.below(5); let mut g = gen_hub(&mut rng, d); let m = mutate_graph(&mut rng, &mut g); bump(&format!("hub-mutant-{}", m)); g }
                     6..=8 => { let mut g = gen_wf_graph(&mut rng, 7); let m = mutate_graph(&mut rng, &mut g); bump(&format!("mutant-{}", m)); g }
                     _ => { bump("junk"); gen_junk_graph(&mut rng, 5) } };
                 cases.push(walk_case(&g))
             } },
         "hist" => while cases.len() < count {
-            let n = rng.below(12); let mut h = if rng.chance(1, 2) { gen_history(&mut rng, n) } else { gen_history_rings(&mut rng, n) };
+            let n = if rng.chance(1, 12) { 30 + rng.below(50) } else { rng.below(12) }; let mut h = if rng.chance(1, 2) { gen_history(&mut rng, n) } else { gen_history_rings(&mut rng, n) };
             if rng.chance(1, 12) { let i = rng.below(h.len() + 1); h.insert(i, Ev::Pop(rng.below(4))); bump("nonconformant") } else { bump("conformant") }
             cases.push(hist_case(&h)) },
         "pool" => {
